@@ -3,7 +3,7 @@
 // tier: quick
 // bound: one store actor, one open document; a burst of n cheap requests (n in {0, 50, 400}), then a shutdown request, then one more request, all
 // enqueued without waiting for any answer; repeated 6 times per n (thorough tier: 20 times). Every request that the channel accepted must be answered - with a value or with
-// an error - within 20 s (C10: "whenever ... the store actor stops during a session, both sides finish with success or a reported error: they never wait forever").
+// an error - within 40 s (C10: "whenever ... the store actor stops during a session, both sides finish with success or a reported error: they never wait forever").
 #[cfg(test)]
 mod verif_rp_c10_shutdown_queue {
     use super::*;
@@ -29,11 +29,11 @@ mod verif_rp_c10_shutdown_queue {
             handle.tx.send(Action::Shutdown { reply: Some(sreply) }).await.unwrap();
             let (reply, late_rx) = oneshot::channel();
             let sent = handle.tx.send(Action::Replica(ns, ReplicaAction::GetState { reply })).await;
-            let _store = tokio::time::timeout(std::time::Duration::from_secs(20), srx).await.expect("WITNESS the shutdown request itself is not answered");
-            for rx in early { let r = tokio::time::timeout(std::time::Duration::from_secs(20), rx).await; assert!(r.is_ok(), "WITNESS a request queued before the shutdown request is never answered"); }
+            let _store = tokio::time::timeout(std::time::Duration::from_secs(40), srx).await.expect("WITNESS the shutdown request itself is not answered");
+            for rx in early { let r = tokio::time::timeout(std::time::Duration::from_secs(40), rx).await; assert!(r.is_ok(), "WITNESS a request queued before the shutdown request is never answered"); }
             match sent {
                 Err(_) => refused += 1, // the actor had already gone: the caller is told at once
-                Ok(()) => match tokio::time::timeout(std::time::Duration::from_secs(20), late_rx).await {
+                Ok(()) => match tokio::time::timeout(std::time::Duration::from_secs(40), late_rx).await {
                     Ok(_) => answered += 1, // a value or a closed-channel error: both are "a reported error or success"
                     Err(_) => { stuck += 1; }
                 },
